@@ -547,45 +547,7 @@ def schema_extension_merges(ck, repo):
 
 
 def _sdl_assembly(ck, repo):
-    f = repo.func("tartiflette/schema/registry.py", "SchemaRegistry.register_sdl")
-    from ..q import inlined_view
-    fv = inlined_view(repo, f)   # file-finding / file-reading helpers count as part of register_sdl
-    f = fv.func
-    p = f.positional_params  # schema_name, sdl, sdl_file_encoding, modules_sdl
-    atoms = Atoms({f"isinstance({p[1]}, list)": "is_list", f"os.path.isfile({p[1]})": "is_file", f"os.path.isdir({p[1]})": "is_dir", p[3]: "has_modules"})
-    store = [n for n in walk_no_nested(f.node) if isinstance(n, ast.Assign) and isinstance(n.targets[0], ast.Subscript) and unparse(n.targets[0].slice) == "'sdl'"]
-    ck.ob("register_sdl stores the assembled SDL under the schema's own name", len(store) == 1 and unparse(store[0].targets[0]) == f"SchemaRegistry._schemas[{p[0]}]['sdl']" and
-          unparse(store[0].value) == "full_sdl" and not fv.conditions(store[0]), f, store[0] if store else f.node, construct="sdl:store")
-    for kind, val in (("list", {"is_list": True, "is_file": False, "is_dir": False}), ("file", {"is_list": False, "is_file": True, "is_dir": False}),
-                      ("directory", {"is_list": False, "is_file": False, "is_dir": True}), ("text", {"is_list": False, "is_file": False, "is_dir": False})):
-        for hm in (False, True):
-            v = dict(val, has_modules=hm)
-            feats = set()
-            for tr in fv.cfg.simulate(lambda n, env: evaluate(n.ast, env, v, atoms)):
-                texts = [n.text() for n in tr.stmts()]
-                feats.add((
-                    any(t == f"sdl_files_list += {p[1]}" for t in texts), any(t == f"sdl_files_list.append({p[1]})" for t in texts),
-                    any(t.startswith("sdl_files_list += glob(") for t in texts), any(t == f"full_sdl = {p[1]}" for t in texts),
-                    any(t == f"full_sdl = f'{{full_sdl}} {{{p[3]}}}'" for t in texts), any(n.kind == "stmt" and store and n.ast is store[0] for n in tr.nodes)))
-            want_src = {"list": (True, False, False, False), "file": (False, True, False, False), "directory": (False, False, True, False), "text": (False, False, False, True)}[kind]
-            ok = bool(feats) and all(ft[:4] == want_src and ft[4] == hm and ft[5] for ft in feats)
-            ck.ob(f"register_sdl: SDL given as {kind}{' plus module SDL' if hm else ''} reaches the store{' with the module SDL appended' if hm else ''}", ok, f, f.node,
-                  construct=f"sdl:{kind}:{int(hm)}", detail=str(sorted(feats)) + atoms.note())
-    rd = [c for c in fv.calls("read")]
-    lp = fv.enclosing(rd[0], (ast.For,)) if rd else None
-    ok = len(rd) == 1 and lp is not None and unparse(lp.iter) == "sdl_files_list" and any(isinstance(n, ast.AugAssign) and unparse(n.target) == "full_sdl" for n in walk_no_nested(lp))
-    ck.ob("register_sdl concatenates the content of every listed file", ok, f, rd[0] if rd else f.node, construct="sdl:files-read")
-    g = [c for c in fv.calls("glob")]
-    pats = sorted(unparse(c.args[0]) for c in g)
-    ck.ob("register_sdl: a directory contributes its *.sdl and *.graphql files, recursively", len(g) == 2 and all(arg_text(c, None, "recursive") == "True" for c in g) and
-          "**/*.sdl" in pats[1] + pats[0] and "**/*.graphql" in pats[0] + pats[1], f, g[0] if g else f.node, construct="sdl:directory-glob", detail=str(pats))
-    # a `#` comment ends at the line break: pieces glued without one lose the next piece's first line
-    au = [n for n in walk_no_nested(lp) if isinstance(n, ast.AugAssign) and unparse(n.target) == "full_sdl"] if lp is not None else []
-    ok = len(au) == 1 and isinstance(au[0].op, ast.Add) and isinstance(au[0].value, ast.BinOp) and isinstance(au[0].value.left, ast.Constant) and \
-        isinstance(au[0].value.left.value, str) and "\n" in au[0].value.left.value and rd and \
-        (au[0].value.right is rd[0] or (isinstance(au[0].value.right, ast.Name) and any(isinstance(n, ast.Assign) and unparse(n.targets[0]) == au[0].value.right.id and n.value is rd[0]
-                                                                                          for n in ast.walk(f.node))))
-    ck.ob("register_sdl: each file's content starts on a new line of the assembled SDL", ok, f, au[0] if au else f.node, construct="sdl:separator:files")
+    sdl_assembly_terms(ck, repo)
     pieces = []
     for fn_ in ("_import_builtins", "_import_modules"):
         g_ = repo.func("tartiflette/engine.py", fn_)
@@ -712,12 +674,15 @@ def string_token_rows(ck, repo):
     paths of TokenTransformer.string_value, whatever the statements look like."""
     from ..pathtab import outcome_rows, truth
     m = repo.func("tartiflette/language/parsers/lark/transformers/token_transformer.py", "TokenTransformer.string_value")
-    rows = [r for r in outcome_rows(FuncView(m)) if r["exit"] == "return_exit" and r["ret"] is not None]
+    from ..q import inlined_view
+    rows = [r for r in outcome_rows(inlined_view(repo, m)) if r["exit"] == "return_exit" and r["ret"] is not None]   # unquoting helpers are part of it
     if not rows:
         raise AnalysisError("TokenTransformer.string_value: no returning path")
     seen = set()
     for r in rows:
-        toks = [c for c in ast.walk(r["ret"]) if isinstance(c, ast.Call) and callee_last(c) == "Token"]
+        # the token built on this path: in the returned expression, or stored into the tree by an (inlined) helper
+        pool = [r["ret"]] + [v_ for k_, v_ in r["sym"].items() if isinstance(k_, str) and not k_.startswith("__") and isinstance(v_, ast.AST)]
+        toks = [c for e_ in pool for c in ast.walk(e_) if isinstance(c, ast.Call) and callee_last(c) == "Token"]
         val = unparse(toks[0].args[1]) if toks and len(toks[0].args) > 1 else unparse(r["ret"])
         block = None
         for t, o in r["conds"]:
@@ -759,3 +724,56 @@ def schema_marked_non_introspectable(ck, repo):
     wr = [fn.short for fn in repo.all_funcs() if fn is not f and not fn.module.relpath.endswith("schema/schema.py") for n in ast.walk(fn.node)
           if isinstance(n, ast.Attribute) and n.attr == "is_introspectable" and isinstance(n.ctx, ast.Store)]
     ck.ob("nothing else in the package writes the schema's introspection flag", not wr, where="tartiflette/", construct="hidden:schema:writers", detail=str(wr))
+
+
+def sdl_assembly_terms(ck, repo):
+    """E13: SchemaRegistry.register_sdl interpreted on the four ways of supplying the SDL (text, one file, a list of files, a
+    directory) with and without module SDL, on a modelled file system: what is stored under the schema's own name is, line
+    for line, the text itself / the content of every file in order - each starting on a line of its own (a file ending in a
+    `# comment` must not swallow the first line of the next) - followed by the module SDL."""
+    from .. import absint
+    from ..absint import Env, LambdaV, RecV, Sym
+    f = repo.func("tartiflette/schema/registry.py", "SchemaRegistry.register_sdl")
+    files = {"/d/a.sdl": "type A { a: Int } # end of a", "/d/sub/b.sdl": "type B { b: Int } # end of b", "/d/c.graphql": "type C { c: Int } # end of c", "/x.sdl": "type X { x: Int } # end of x"}
+    globs = {("/d/**/*.sdl", True): ["/d/a.sdl", "/d/sub/b.sdl"], ("/d/**/*.graphql", True): ["/d/c.graphql"]}
+    opened = []
+
+    def s_open(args, kwargs):
+        path = args[0] if args else kwargs.get("file")
+        opened.append((path, kwargs.get("encoding", args[2] if len(args) > 2 else None)))
+        if path not in files:
+            raise absint.PyRaise("FileNotFoundError", str(path))
+        env = Env()
+        env.vars["_c"] = files[path]
+        return RecV("File", read=LambdaV(ast.parse("lambda *a: _c", mode="eval").body, env), _strict=True)
+
+    stubs = {"os.path.isfile": lambda a, k: isinstance(a[0], str) and a[0] in files, "os.path.isdir": lambda a, k: a[0] == "/d",
+             "os.path.join": lambda a, k: "/".join(a), "glob.glob": lambda a, k: list(globs.get((a[0], k.get("recursive", a[1] if len(a) > 1 else False)), [])),
+             "open": s_open}
+    cases = [("text", "type Q { q: Int }", None), ("file", "/x.sdl", ["/x.sdl"]), ("list", ["/d/a.sdl", "/x.sdl"], ["/d/a.sdl", "/x.sdl"]),
+             ("directory", "/d", ["/d/a.sdl", "/d/sub/b.sdl", "/d/c.graphql"])]
+    n = 0
+    for kind, sdl, paths in cases:
+        for mod in (None, "\nscalar M # module sdl"):
+            opened.clear()
+            registry = {}
+            it = absint.Interp(repo, f.module, stubs=stubs)
+            it.genv.vars["SchemaRegistry"] = RecV("SchemaRegistryClass", _schemas=registry, _strict=True)
+            arg_sdl = list(sdl) if isinstance(sdl, list) else sdl
+            try:
+                it.run(f, ["S", arg_sdl, "utf-8", mod])
+                why = None
+            except absint.Unsupported as ex:
+                raise AnalysisError(f"{f.short}: cannot be interpreted on a modelled file system: {ex}")
+            except absint.PyRaise as ex:
+                why = f"raises {ex.name} ({ex.text})"
+            want = sdl if paths is None else "".join("\n" + files[p_] for p_ in paths)
+            if mod:
+                want = f"{want} {mod}"
+            got = registry.get("S", {}).get("sdl") if isinstance(registry.get("S"), dict) else None
+            lines = lambda t: [x.strip() for x in t.split("\n") if x.strip()] if isinstance(t, str) else None   # noqa: E731
+            n += 1
+            ok = why is None and lines(got) == lines(want) and set(registry) == {"S"} and (paths is None or [o[0] for o in opened] == paths) and all(o[1] == "utf-8" for o in opened)
+            ck.ob(f"register_sdl: SDL given as {kind}{' plus module SDL' if mod else ''} is stored under the schema's own name, every piece on lines of its own", ok, f, f.node,
+                  construct=f"sdl:{kind}:{int(bool(mod))}", detail=why or f"stored {got!r}; files opened {opened}")
+    ck.count("sdl_assembly_cases", n, 8)
